@@ -163,6 +163,12 @@ PROPS['C13']['quick'] = list(dict.fromkeys(PROPS['C13']['quick'] + ['core_keccak
 PROPS['C16']['quick'] = list(dict.fromkeys(PROPS['C16']['quick'] + ['autogen_dex', 'autogen_small', 'autogen_recursive_with_poseidon', 'autogen_starknet'] + _LIGHT))   # a change in any covered evaluator is seen by the quick check (about 2 min)
 PROPS['C16']['thorough'] = list(dict.fromkeys(PROPS['C16']['thorough'] + _LIGHT))
 
+# C11 ("trace column counts equal the layout's"): the column-count getters of every layout; C18: public-input functions of every layout
+PROPS['C11']['quick'] = list(dict.fromkeys(PROPS['C11']['quick'] + _LIGHT))
+PROPS['C11']['thorough'] = list(dict.fromkeys(PROPS['C11']['thorough'] + _LIGHT))
+PROPS['C18']['quick'] = list(dict.fromkeys(PROPS['C18']['quick'] + _MID))
+PROPS['C09']['quick'] = list(dict.fromkeys(PROPS['C09']['quick']))
+
 # thorough tier: every hash / stone variant of the core unit for the properties whose code is cfg-dependent
 for _p in ('C01', 'C02', 'C04', 'C05', 'C07', 'C09', 'C13', 'C17', 'C18'):
     PROPS[_p]['thorough'] = list(dict.fromkeys(PROPS[_p]['thorough'] + VARIANTS))
